@@ -473,3 +473,91 @@ func evKind(ev string) string {
 	}
 	return ev
 }
+
+// TestC05SlowRemote: the remote destination answers, but late (its log takes seconds per append). However long the
+// publishing node waits or gives up, the message must not be appended twice per handshake on the remote log, and an
+// acknowledgement still presupposes one successful append there.
+func TestC05SlowRemote(t *testing.T) {
+	type sp struct {
+		DelayMs int   `json:"remote_append_takes_ms"`
+		Qos     int32 `json:"qos"`
+		Local   bool  `json:"local_subscriber_too"`
+	}
+	var paths []sp
+	for _, d := range []int{900, 1500, 2600, 4000, 7000} {
+		for q := int32(0); q <= 2; q++ {
+			for _, l := range []bool{false, true} {
+				paths = append(paths, sp{d, q, l})
+			}
+		}
+	}
+	RunPaths(t, "C05", "C05/slow-remote-log", "TestC05SlowRemote", len(paths), vk.Pick(4*time.Minute, 10*time.Minute),
+		func(t *testing.T, i int, rep *vk.Report) {
+			p := paths[i]
+			RunBubble(t, fmt.Sprintf("p%d", i), func(t *testing.T) {
+				w := NewWorld(t, 2)
+				defer w.Close()
+				viol := func(sig, format string, a ...any) {
+					rep.Violate(vk.Violation{Sig: sig, Msg: fmt.Sprintf("%+v: ", p) + fmt.Sprintf(format, a...), Replay: p})
+				}
+				remote := w.NewClient("sub-remote", 2, AckAll)
+				remote.Connect(ConnectOpts{ClientID: "sub-remote", KeepAlive: 600})
+				remote.Subscribe(1, 1, "t/#")
+				if p.Local {
+					local := w.NewClient("sub-local", 1, AckAll)
+					local.Connect(ConnectOpts{ClientID: "sub-local", KeepAlive: 600})
+					local.Subscribe(1, 1, "t/#")
+				}
+				pub := w.NewClient("pub", 1, AckAll)
+				pub.Connect(ConnectOpts{ClientID: "pub", KeepAlive: 600})
+				w.Step()
+				w.SlowLog(2, time.Duration(p.DelayMs)*time.Millisecond)
+				pub.Publish("t/x", "once", p.Qos, false, 7)
+				w.Idle(40 * time.Second)
+				w.SlowLog(2, 0)
+				w.Idle(5 * time.Second)
+				Observe(w, rep)
+				okAppends, attempts := 0, 0
+				w.mu.Lock()
+				for _, le := range w.LogEvents {
+					if le.Node == 2 && le.Payload == "once" {
+						attempts++
+						if le.OK {
+							okAppends++
+						}
+					}
+				}
+				w.mu.Unlock()
+				if okAppends > 1 {
+					viol("c05-appended-twice-on-slow-remote", "one publish (one handshake) was appended %d times (%d attempts) to the log of the slow remote node", okAppends, attempts)
+					return
+				}
+				acked := pub.Has("PUBACK(7)") || pub.Has("PUBCOMP(7)")
+				if acked && okAppends == 0 {
+					viol("c05-acknowledged-without-storage:slow-remote", "the publisher was acknowledged although the remote node's log never accepted the message (%d attempts)", attempts)
+					return
+				}
+				got := 0
+				for _, pk := range remote.Publishes() {
+					if string(pk.Payload) == "once" {
+						got++
+					}
+				}
+				if got > 1 && p.Qos < 2 {
+					// (a QoS 1 subscriber may see retransmissions only if it did not acknowledge; this one acknowledges at once)
+					viol("c05-delivered-twice-on-slow-remote", "the remote subscriber received the message %d times", got)
+					return
+				}
+				if okAppends == 1 {
+					MarkNontrivial(fmt.Sprint(p))
+					rep.Nontrivial++
+				}
+				rep.Sample(p)
+			})
+		},
+		func(i int) any { return paths[i] },
+		func(rep *vk.Report) {
+			rep.Rule = "one publish (QoS 0/1/2) whose remote destination's log takes 0.9 / 1.5 / 2.6 / 4 / 7 s per append, with and without a local subscriber: at most one successful append on the remote log, an acknowledgement only with one, the remote subscriber receives it at most once"
+			rep.Floor("stored_once", 5, rep.Nontrivial)
+		})
+}
